@@ -72,7 +72,8 @@ func VerifC05Cond() {
 	var cond string
 	var want bool
 	vals := vItem{":x": vS(x)}
-	switch nd.Choice("cond", 5) {
+	var names map[string]string
+	switch nd.Choice("cond", 7) {
 	case 0:
 		cond, want, vals = "attribute_exists(p)", present, nil
 	case 1:
@@ -83,6 +84,12 @@ func VerifC05Cond() {
 		cond, want = "v <> :x", !(hasV && tv == x)
 	case 4:
 		cond, want = "v = :x AND attribute_exists(w)", hasV && tv == x && hasW
+	case 5: // two placeholders for two different attributes
+		cond, want = "#a = :x AND attribute_exists(#b)", hasV && tv == x && hasW
+		names = map[string]string{"#a": "v", "#b": "w"}
+	case 6:
+		cond, want = "attribute_not_exists(#b) OR #a <> :x", !hasW || !(hasV && tv == x)
+		names = map[string]string{"#b": "w", "#a": "v"}
 	}
 	retOld := nd.Choice("return-on-failure", 2) == 1
 	var err error
@@ -92,7 +99,7 @@ func VerifC05Cond() {
 	case 0:
 		nd.Reach("put")
 		in := &dynamodb.PutItemInput{TableName: aws.String(vTbl), Item: vItem{"p": vS("t"), "v": vS("n")},
-			ConditionExpression: aws.String(cond), ExpressionAttributeValues: vals}
+			ConditionExpression: aws.String(cond), ExpressionAttributeValues: vals, ExpressionAttributeNames: names}
 		if retOld {
 			in.ReturnValuesOnConditionCheckFailure = types.ReturnValuesOnConditionCheckFailureAllOld
 		}
@@ -107,7 +114,7 @@ func VerifC05Cond() {
 			uv[k] = v
 		}
 		in := &dynamodb.UpdateItemInput{TableName: aws.String(vTbl), Key: target.item(false),
-			UpdateExpression: aws.String("SET u = :n"), ConditionExpression: aws.String(cond), ExpressionAttributeValues: uv}
+			UpdateExpression: aws.String("SET u = :n"), ConditionExpression: aws.String(cond), ExpressionAttributeValues: uv, ExpressionAttributeNames: names}
 		if retOld {
 			in.ReturnValuesOnConditionCheckFailure = types.ReturnValuesOnConditionCheckFailureAllOld
 		}
@@ -122,9 +129,11 @@ func VerifC05Cond() {
 	case 2:
 		nd.Reach("delete")
 		in := &dynamodb.DeleteItemInput{TableName: aws.String(vTbl), Key: target.item(false),
-			ConditionExpression: aws.String(cond), ExpressionAttributeValues: vals}
+			ConditionExpression: aws.String(cond), ExpressionAttributeValues: vals, ExpressionAttributeNames: names}
 		if retOld {
 			in.ReturnValuesOnConditionCheckFailure = types.ReturnValuesOnConditionCheckFailureAllOld
+		} else if nd.Choice("delete-returns-old", 2) == 1 {
+			in.ReturnValues = types.ReturnValueAllOld // what a successful delete returns is not what a refusal carries
 		}
 		_, err = c.DeleteItem(vCtx, in)
 		if want {
@@ -145,6 +154,9 @@ func VerifC05Cond() {
 		nd.Assert(err == nil || isCCF, "C05-refusal-is-ConditionalCheckFailed")
 		after := vScanAll(c)
 		nd.Assert(vSameItems(before, after), "C05-refusal-changes-nothing")
+		if isCCF && !retOld {
+			nd.Assert(len(failItem) == 0, "C05-refusal-carries-no-item-unless-asked ["+[]string{"PutItem", "UpdateItem", "DeleteItem"}[op]+"]")
+		}
 		if isCCF && retOld && present {
 			nd.Reach("refusal-with-item-requested")
 			nd.Assert(vSameItem(failItem, m.full(target, tattrs)), "C05-refusal-carries-stored-item ["+[]string{"PutItem", "UpdateItem", "DeleteItem"}[op]+"]")
